@@ -175,7 +175,25 @@ def gen_hostile_cache_history(rng):
         hot = ['mxw', 'gp', 'foo', 'mxw+gp', 'bx', 'zz', 'foo+bx']
         calls = [{'slot': rng.randrange(2), 'abbr': rng.choice(hot)} for _ in range(rng.randint(1, 5))]
         return {'slots': slots, 'calls': calls, 'probe': {'slot': rng.randrange(2), 'abbr': rng.choice(hot)}}
-    if r < 0.3:
+    if r < 0.28:
+        # ONE table, one scope, one cache; the option sets differ only in how a typed name is MATCHED against the table (threshold of the fuzzy search):
+        # whatever is remembered about a name must not outlive the threshold it was found under
+        tbl = rng.choice([None, {'foo': 'bar:10', 'zz': 'zed:1.5|2'}, {'posx': 'pos-x:1|2'}])
+        ctxn = rng.choice([None, None, {'name': '@@property'}, {'name': '@@section'}])
+        s1, s2 = rng.sample([0, 0.3, 0.5, 0.7, 0.9, 1], 2)
+        slots = []
+        for sc in (s1, s2):
+            u = {'type': 'stylesheet', 'options': {'stylesheet.fuzzySearchMinScore': sc}}
+            if tbl is not None:
+                u['snippets'] = dict(tbl)
+            if ctxn is not None:
+                u['context'] = dict(ctxn)
+            slots.append({'user': u, 'as_config': rng.random() < 0.3, 'cache': 'c0', 'raising_field_at': None})
+        hot = rng.sample(['posa', 'dib', 'tdn', 'ovh', 'bgcl', 'fwb', 'mten', 'posx', 'zzz', 'foo2', 'bxsh', 'animic', 'zom', 'fooo', 'zzd', 'bdrs', 'trsde', 'pos', 'p', 'wfsm', 'ovxh', 'bgi', 'mxwd', '@kff', '@med'], 4)
+        calls = [{'slot': rng.randrange(2), 'abbr': rng.choice(hot)} for _ in range(rng.randint(1, 6))]
+        pa = rng.choice([c['abbr'] for c in calls]) if rng.random() < 0.75 else rng.choice(hot)
+        return {'slots': slots, 'calls': calls, 'probe': {'slot': rng.randrange(2), 'abbr': pa}}
+    if r < 0.36:
         # two snippet tables, one restricting scope, one cache
         sc = {'name': rng.choice(['@@section', '@@property', '@@global'])}
         t1, t2 = rng.sample([{'foo': 'bar:10', 'zz': 'zed:1.5|2'}, {'posx': 'pos-x:1|2', 'p': 'pad:0'}, {'zz': 'raw ${1} body', 'pos': 'vp-x:a|b'}, {}], 2)
